@@ -67,7 +67,7 @@ def gen_file(rng):
         data = audio + t + bytes(l3) + v1()
     else:
         data = audio[:rng.choice([0, 1, 7, 8, 31])]
-    return data, kind
+    return data, kind, len(audio)
 
 
 def classify(exc):
@@ -82,7 +82,7 @@ def run(ctx):
     rng = ctx.rng
     reqs = []
     for i in range(ctx.budget(200, 2000)):
-        data, kind = gen_file(rng)
+        data, kind, alen = gen_file(rng)
         op = rng.choice(["save", "save", "delete"])
         case = {"layout": kind, "op": op, "data": hx(data) if len(data) < 1200 else "len=%d" % len(data)}
         f = io.BytesIO(data)
@@ -108,10 +108,8 @@ def run(ctx):
         ctx.hist["apefile:layout:" + kind] += 1
         reqs.append((line, impl, case))
         # property-level statements for the plain layouts
-        if k == "ok" and kind in ("none", "tag", "tag+v1", "tag+lyrics+v1", "v1-only"):
-            audio_len = {"none": len(data), "v1-only": len(data)}.get(kind)
-            if audio_len is None:
-                audio_len = data.find(b"APETAGEX")
+        if k == "ok" and kind in ("none", "tag", "tag-noheader", "tag+v1", "tag+lyrics+v1", "v1-only"):
+            audio_len = {"none": len(data), "v1-only": len(data)}.get(kind, alen)
             audio = data[:audio_len]
             if b"APETAGEX" in audio or len(audio) < 0:
                 continue
@@ -120,8 +118,7 @@ def run(ctx):
                 if kind in ("none", "v1-only"):
                     exp = data
                 else:
-                    tl = len(ape_tag([])) - 0
-                    end = data.find(b"APETAGEX", audio_len + 8)       # footer
+                    end = data.find(b"APETAGEX", audio_len + 8) if kind != "tag-noheader" else data.find(b"APETAGEX", audio_len)   # footer
                     exp = audio + data[end + 32:]
                 if out != exp:
                     ctx.violation("apefile:delete:wrong-result", "delete did not leave exactly audio + what follows the tag", case)
